@@ -163,6 +163,7 @@ pub fn run_worker(prop: &dyn Property, cfg: &WorkerCfg) -> Value {
                     // still has to run the generator to advance the odometer: use a throwaway report
                     let mut scratch = Report::new();
                     scratch.frozen = true;
+                    scratch.decode_only = true;
                     let _ = (fam.check)(&mut SkipSrc { inner: &mut e }, &mut scratch);
                 }
                 idx += 1;
